@@ -184,6 +184,20 @@ func predConcurrent(c Case) (r Result) {
 		g   int
 	}
 	results := make([][]libOut, G)
+	// own-docs: every goroutine searches its own variant of the document (arrays
+	// doubled / truncated), so that state leaking from one document's evaluation into
+	// another's changes a result; the expected value per variant comes from the
+	// reference model.
+	ownDocs := make([]interface{}, G)
+	ownWant := make([]interface{}, G)
+	ownErr := make([]bool, G)
+	ownAmb := make([]bool, G)
+	for g := 0; g < G; g++ {
+		ownDocs[g] = varyDoc(orig, g%3)
+		e2 := &ref.Ev{}
+		w, werr2 := e2.Eval(n, ref.DeepCopy(ownDocs[g]))
+		ownWant[g], ownErr[g], ownAmb[g] = w, werr2 != nil, e2.Ambiguous
+	}
 	var wg, ready sync.WaitGroup
 	start := make(chan struct{})
 	stopReader := make(chan struct{})
@@ -198,7 +212,7 @@ func predConcurrent(c Case) (r Result) {
 			var doc interface{}
 			switch mode {
 			case "own-docs":
-				doc = ref.DeepCopy(orig)
+				doc = ownDocs[g]
 			default:
 				doc = shared
 			}
@@ -270,6 +284,17 @@ func predConcurrent(c Case) (r Result) {
 				r.Got = showOut(o)
 				return
 			}
+			if mode == "own-docs" {
+				if ownAmb[g] {
+					continue
+				}
+				if (o.Err != nil) != ownErr[g] || (o.Err == nil && !ref.Matches(o.Val, ownWant[g])) {
+					r.Violation = "a concurrent call on its own document returned a different result than the same call made alone"
+					r.Expected, r.Got = show(ownWant[g]), showOut(o)
+					return
+				}
+				continue
+			}
 			if (o.Err != nil) != (seq.Err != nil) {
 				r.Violation = "a concurrent call disagrees with the sequential call about failure"
 				r.Expected, r.Got = showOut(seq), showOut(o)
@@ -299,7 +324,7 @@ var c12Modes = []string{"same-doc", "own-docs", "oneshot", "mixed", "reader"}
 var c12LiteralExprs = []string{
 	"`[3,1,2]` | [@[0], sort_by(@, &@)[0]]", "sort_by(`[{\"a\":2},{\"a\":1}]`, &a)[0].a", "reverse(`[1,2,3]`)", "merge(`{\"a\":1}`, @)", "`[[2,1],[0]]`[] | sort(@)",
 	"sort_by(people, &age)[*].name", "max_by(people, &age).name", "people[?age > `1`].tags[]", "sort(nums) | reverse(@)", "merge(o1, o2).k", "to_array(nums)[0]", "map(&tags, people)[]",
-	"sort_by(`[\"b\",\"a\",\"c\"]`, &@) | join('', @)", "not_null(`[2,1]`, nums) | sort(@)", "[`[3,2,1]`, nums][] | sort(@)",
+	"sort_by(`[\"b\",\"a\",\"c\"]`, &@) | join('', @)", "nums[::9]", "people[::-7].name", "`[1,2]`[::5]", "nums[1::3]", "nested[][::4]", "people[*].tags[::2]", "not_null(`[2,1]`, nums) | sort(@)", "[`[3,2,1]`, nums][] | sort(@)",
 }
 
 func TestC12(t *testing.T) {
@@ -307,7 +332,7 @@ func TestC12(t *testing.T) {
 		var doc interface{}
 		var expr string
 		src := rapid.IntRange(0, 3).Draw(t, "src")
-		if src == 3 {
+		if src == 3 && os.Getenv("VERIF_C12_MODE") == "" {
 			expr = hwExprs[rapid.IntRange(0, len(hwExprs)-1).Draw(t, "hw")]
 			if rapid.Bool().Draw(t, "hwCtx") {
 				expr = "[" + expr + ", Name, Items[*].Name]"
@@ -315,7 +340,7 @@ func TestC12(t *testing.T) {
 			run(t, Case{Property: "C12", Kind: "concurrent", Expr: expr, Doc: "null", Extra: map[string]interface{}{"mode": "struct"}})
 			return
 		}
-		switch src {
+		switch src % 3 {
 		case 0:
 			doc = genUnsortedDoc(t)
 			expr = c12LiteralExprs[rapid.IntRange(0, len(c12LiteralExprs)-1).Draw(t, "lit")]
@@ -329,6 +354,9 @@ func TestC12(t *testing.T) {
 			expr = genExpr(t, doc, f)
 		}
 		mode := c12Modes[rapid.IntRange(0, len(c12Modes)-1).Draw(t, "mode")]
+		if m := os.Getenv("VERIF_C12_MODE"); m != "" {
+			mode = m
+		}
 		run(t, Case{Property: "C12", Kind: "concurrent", Expr: expr, Doc: ref.Canon(doc), Extra: map[string]interface{}{"mode": mode}})
 	})
 }
@@ -653,4 +681,35 @@ func rapidBool(c Case, key string, def bool) bool {
 		return v
 	}
 	return def
+}
+
+
+// varyDoc derives a variant of a document: 0 = copy, 1 = every array concatenated
+// with itself, 2 = every array truncated to its first element.
+func varyDoc(v interface{}, mode int) interface{} {
+	switch t := v.(type) {
+	case []interface{}:
+		out := []interface{}{}
+		for _, e := range t {
+			out = append(out, varyDoc(e, mode))
+		}
+		switch mode {
+		case 1:
+			for _, e := range t {
+				out = append(out, varyDoc(e, mode))
+			}
+		case 2:
+			if len(out) > 1 {
+				out = out[:1]
+			}
+		}
+		return out
+	case map[string]interface{}:
+		out := map[string]interface{}{}
+		for k, e := range t {
+			out[k] = varyDoc(e, mode)
+		}
+		return out
+	}
+	return v
 }
